@@ -35,10 +35,11 @@ from .. import fx_paramframe
 
 CLAUSES = ('unknown_is_error', 'known_is_accepted', 'views_readable', 'fit_names', 'fit_values',
            'fit_boundaries', 'fit_priors', 'derived_names', 'values', 'other_parameters_untouched', 'argument_untouched')
-FULL = ('compile_params', 'update_model', 'update_same', 'write_back')     # calls after which the whole set-up is compared
+FULL = ('compile_params', 'update_model', 'update_same', 'write_back', 'fit')     # calls after which the whole set-up is compared
 UPDATES = ('update_model', 'update_same')
 OBS_PARAMS = ('offset',)     # the observation's fitting parameters (MC_Optimizer.tla: MCObsParams)
-NEED = ('SetPrior', 'EnableDerived', 'DisableDerived', 'Compile', 'WriteBack', 'Unknown', 'UpdateCall',
+COMPILES = ('compile_params', 'fit')      # the two public entries into the compilation (Optimizer.tla: Compiles)
+NEED = ('SetPrior', 'EnableDerived', 'DisableDerived', 'CompileAs', 'File', 'WriteBack', 'Unknown', 'UpdateCall',
         'UpdateWrongCall', 'BadMode', 'UpdateSame')
 MODES = ('linear', 'log')
 
@@ -46,14 +47,14 @@ MODES = ('linear', 'log')
 def history_class(hist, k):
     """Input class of step k of a history: the call, and what preceded it since the last compile."""
     op = call_kind(hist[k])
-    compiled_before = any(h['op'] == 'compile_params' for h in hist[:k])
+    compiled_before = any(h['op'] in COMPILES for h in hist[:k])
     since, since_kinds = [], []
     for h in reversed(hist[:k]):
-        if h['op'] == 'compile_params':
+        if h['op'] in COMPILES:
             break
         since.append(h['op'])
         since_kinds.append(call_kind(h))
-    tags = sorted(set(since) & {'set_boundary', 'set_factor_boundary', 'set_mode', 'set_prior'}) \
+    tags = sorted(set(since) & {'set_boundary', 'set_factor_boundary', 'set_mode', 'set_prior', 'file'}) \
         if hist[k]['op'] in FULL and compiled_before else []
     if hist[k]['op'] in FULL and 'set_mode[mixed-case]' in since_kinds:
         tags = [t for t in tags if t != 'set_mode'] + ['set_mode[mixed-case]']     # a mode spelled with upper-case letters
@@ -78,7 +79,7 @@ def boundary_then_mode(before):
     """Since the last compile a parameter's boundaries were set and its mode afterwards (the order of an input file)."""
     bounded = set()
     for h in before:
-        if h['op'] == 'compile_params':
+        if h['op'] in COMPILES:
             bounded = set()
         elif h['op'] in ('set_boundary', 'set_factor_boundary'):
             bounded.add(h.get('p'))
@@ -99,6 +100,12 @@ def call_kind(ev):
         if n == nfit:      # co: an entry handed to a log prior is numerically the parameter's current value
             return op + ('[entry=current-value]' if ev.get('co') else '')
         return op + ('<shorter' if n < nfit else '>longer')
+    if op == 'file':       # the route: what the input file asks for
+        fs = ev.get('fs', [])
+        keys = sorted({k for e in fs for k, w in (('mode', 'm'), ('bounds', 'b'), ('factor', 'f')) if e.get(w)} |
+                      {'prior' for e in fs if (e.get('pr') or {}).get('kind', 'None') != 'None'} |
+                      {'on' if e['fit'] else 'off' for e in fs} | ({'derive'} if ev.get('ds') else set()))
+        return 'file[%s]' % '+'.join(keys)
     if op == 'update_same':
         return 'update_model[same-array-again]'
     if op == 'set_boundary' and ev.get('p') in fx.PARAMS and min(ev.get('x', [0])) <= fx.ZERO:
@@ -133,6 +140,8 @@ def replay_behaviour(ctx, hist, source, store=True, n=0):
             ev['c'] = ('array', 'list', 'array', 'tuple')[(n + k) % 4]
         if 'c' not in ev and ev['op'] in ('set_boundary', 'set_factor_boundary'):
             ev['c'] = ('tuple', 'array', 'list')[(n + k) % 3]
+        if 'ko' not in ev and ev['op'] == 'file':      # spelling of the booleans / order of the keys in the file
+            ev['ko'] = (n + k) % 6
         exp = ev['post']
         psp = [f['psp'] for f in prev['fit']]
         if ev['op'] == 'preset':       # macro step: enable_fit / disable_fit for every parameter
@@ -142,6 +151,10 @@ def replay_behaviour(ctx, hist, source, store=True, n=0):
         got = real.project(raised)
         bad, detail = fx.compare(exp, got, full=ev['op'] in FULL)
         cls = history_class(hist, k)
+        if bad is None and ev['op'] == 'fit':
+            # .. and what the sampler was handed when fit() entered it is that same set-up
+            bad, detail = fx.compare(exp, dict(real.sampler, err=got['err']), full=True)
+            detail = 'seen by the sampler: ' + detail
         if bad is None:
             ctx.verdict(clause_for(ev, 'ok'), True, cls=cls)
         else:
@@ -165,8 +178,8 @@ def clause_for(ev, bad):
     if bad == 'ok':
         if ev['post']['err']:
             return 'unknown_is_error'
-        return {'compile_params': 'compile_history_independent', 'update_model': 'update_touches_only_fitted',
-                'update_same': 'update_touches_only_fitted',
+        return {'compile_params': 'compile_history_independent', 'fit': 'compile_history_independent',
+                'update_model': 'update_touches_only_fitted', 'update_same': 'update_touches_only_fitted',
                 'write_back': 'write_back_round_trip'}.get(op, 'setters_change_settings_only')
     if bad == 'values':
         return {'update_model': 'update_touches_only_fitted', 'update_same': 'update_touches_only_fitted',
@@ -479,18 +492,21 @@ def run(ctx):
     # the other exports of binding C are prepared meanwhile
     later = [pool.submit(run_tlc, 'MC_Optimizer', 'EX_Optimizer_preset.cfg', workers=1),
              pool.submit(run_tlc, 'MC_Optimizer', 'EX_Optimizer_order.cfg', workers=1),
+             pool.submit(run_tlc, 'MC_Optimizer', 'EX_Optimizer_route.cfg', workers=1),
              pool.submit(run_tlc, 'MC_Optimizer', 'SIM_Optimizer.cfg', simulate='num=%d' % nsim, depth=16, workers=1,
                          seed=ctx.seed + 1)]
     design = [pool.submit(ctx.check_spec, 'coverage', 'MC_Optimizer', 'MC_Optimizer_cov.cfg', need_actions=NEED),   # vacuity: every action taken
               pool.submit(ctx.check_spec, 'exhaustive', 'MC_Optimizer', 'MC_Optimizer_%s.cfg' % ctx.tier, workers=8)]
     ctx.exhaustive = True
+    # i: fit() re-uses an earlier non-empty compile; j: `p:fit = False` in an input file does not switch a fitted parameter off
     # e: set_mode stores the spelling it was given (compile reads "LOG" as not "log"); f: update_model notices the
     # wrong length only when the shorter of vector / fitted set runs out, after the leading setters were called;
     # g: set_boundary drops a zero / negative edge while the parameter is in log mode (the order of set_boundary and
     # set_mode decides the set-up); h: update_model writes the prior transform into the caller's array
     for cfg, inv in (('a', 'HistoryIndependent'), ('a2', 'DefaultsFollowSettings'), ('b', 'SpacesAgree'),
                      ('b2', 'RoundTrip'), ('c', 'KnownIsAccepted'), ('e', 'HistoryIndependent'),
-                     ('f', 'ErrorsChangeNothing'), ('g', 'HistoryIndependent'), ('h', 'ArgumentKept')):
+                     ('f', 'ErrorsChangeNothing'), ('g', 'HistoryIndependent'), ('h', 'ArgumentKept'),
+                     ('i', 'HistoryIndependent'), ('j', 'HistoryIndependent')):
         design.append(pool.submit(ctx.expect_refuted, 'as-built-%s' % cfg, 'MC_Optimizer', 'MC_Optimizer_asbuilt_%s.cfg' % cfg, inv, workers=4))
     # priors of the observation's parameters reaching the table only when the model pass left something in it
     design.append(pool.submit(ctx.expect_refuted, 'obs-priors-lost', 'MC_Optimizer', 'MC_Optimizer_asbuilt_d.cfg', 'ViewsReadable', workers=4))
@@ -565,8 +581,38 @@ def run(ctx):
     nb += len(orders)
     ctx.note('binding C: %d order histories (fitted subset x two setting calls of different kinds on one fitted parameter, '
              'either order x compile)' % len(orders))
-    # ---- binding C: simulation
+    # ---- binding C: route histories (a compiled set-up, one change by the API or by an input file, then fit() / compile)
     res = later[2].result()
+    ctx.add_tlc('export-route-histories', res, counts=False)
+    if res.violated:
+        raise Machinery('route export config violated %s' % res.violated)
+    routes = res.tagged('BEH')
+    rkinds = {}
+    for n, b in enumerate(routes):
+        h = b['h']
+        replay_behaviour(ctx, h, 'route', n=n)
+        for key in ((h[1]['op'], h[2]['op'], h[3]['op']), (call_kind(h[2]), h[3]['op']),
+                    ('changes-set-up', h[2]['op'], h[3]['op'], h[3]['post']['fit'] != h[1]['post']['fit'])):
+            rkinds[key] = rkinds.get(key, 0) + 1
+    for first in COMPILES:
+        for change in ('enable_fit', 'disable_fit', 'set_mode', 'set_boundary', 'set_factor_boundary', 'set_prior',
+                       'enable_derived', 'disable_derived', 'file'):
+            if not rkinds.get((first, change, 'fit')):
+                raise Machinery('route histories do not cover %s, %s, fit' % (first, change))
+        if not rkinds.get((first, 'file', 'compile_params')):
+            raise Machinery('route histories do not cover %s, file, compile_params' % first)
+    for last in COMPILES:
+        for kd in ('file[off]', 'file[on]', 'file[mode+off]', 'file[mode+on]', 'file[bounds+on]', 'file[factor+on]',
+                   'file[on+prior]', 'file[off+on]', 'file[derive]', 'file[bounds+derive+mode+on+prior]'):
+            if not rkinds.get((kd, last)):
+                raise Machinery('route histories do not cover %s then %s' % (kd, last))
+        if not rkinds.get(('changes-set-up', 'file', last, True)):
+            raise Machinery('no input file changes the set-up seen by %s' % last)
+    nb += len(routes)
+    ctx.note('binding C: %d route histories (fitted subset x compile / fit x one change by the API or by an input file x '
+             'fit / compile)' % len(routes))
+    # ---- binding C: simulation
+    res = later[3].result()
     ctx.add_tlc('simulate', res, counts=False)
     if res.violated:
         raise Machinery('simulation violated %s\n%s' % (res.violated, res.error_trace))
@@ -586,7 +632,7 @@ def run(ctx):
             # .. followed by an accepted update_model / write-back / compile on the same object
             if kd in kinds and any(h['op'] in FULL and not h['post']['err'] for h in b['h'][kinds.index(kd) + 1:]):
                 nrefused[kd] = nrefused.get(kd, 0) + 1
-    if len(ops) < 13 or ncompile2 < nsim // 4:
+    if len(ops) < 15 or ncompile2 < nsim // 4:
         raise Machinery('simulation does not cover the calls: %r, %d behaviours with two compiles' % (sorted(ops), ncompile2))
     if len(nrefused) < 6 or min(nrefused.values()) < max(3, nsim // 60):
         raise Machinery('simulation does not cover refused vectors / modes / upper-case modes followed by an accepted '
